@@ -569,11 +569,90 @@ def cycle_body(ctx, case):
     ctx.note(case, (coarse is None and feed) or (precise is not None and len(precise) >= 2), *keys, evals=1)
 
 
+# ------------------------------------------------------------------------------------------ loop shapes (enumerated)
+# Loops that close through something other than a right-hand side: (a) a condition that is NOT the innermost one around
+# the assignment (If or Switch at any of up to three levels, the other levels testing inputs), with the legal
+# counterpart that tests a neighbouring, unassigned bit of the same signal; (b) the asynchronous reset of a domain
+# computed from a register of that very domain (the register follows its reset without a clock edge), with the legal
+# counterparts: a synchronous reset computed the same way, and an asynchronous reset computed from another domain.
+def shape_cases(ctx):
+    import itertools
+    if ctx.shard != 0:
+        return
+    for depth in (2, 3):
+        for pos in range(depth):
+            for kinds in itertools.product("is", repeat=depth):
+                for via in (0, 1, 2):
+                    for legal in (False, True):
+                        for sub in (0, 1):
+                            yield ["nested", depth, pos, "".join(kinds), via, legal, sub]
+    for how in (0, 1, 2, 3):
+        for variant in ("async-own", "sync-own", "async-other"):
+            for sub in (0, 1):
+                yield ["arst", how, variant, sub]
+
+
+def shape_body(ctx, case):
+    with warnings.catch_warnings():
+        warnings.simplefilter("ignore")
+        top, inner = Module(), Module()
+        top.submodules.inner = inner
+        if case[0] == "nested":
+            _, depth, pos, kinds, via, legal, sub = case
+            m = inner if sub else top
+            x = Signal(3, name="x"); t = Signal(2, name="t"); ins = [Signal(2, name=f"i{k}") for k in range(depth)]
+            b = 1
+            tested = x[2] if legal else x[b]
+            if via == 1:
+                m.d.comb += t[0].eq(~tested); tested = t[0]
+            elif via == 2:
+                tested = tested ^ ins[0][1]
+            import contextlib
+            with contextlib.ExitStack() as stack:
+                for lvl in range(depth):
+                    c = tested if lvl == pos else ins[lvl][0]
+                    if kinds[lvl] == "i":
+                        stack.enter_context(m.If(c))
+                    else:
+                        stack.enter_context(m.Switch(c)); stack.enter_context(m.Case(1))
+                m.d.comb += x[b].eq(ins[depth - 1][1])
+            ports = [x] + ins
+            cyclic = not legal
+            key = f"shape:condition-{'outermost' if pos == 0 else 'innermost' if pos == depth - 1 else 'middle'}"
+        else:
+            _, how, variant, sub = case
+            from amaranth.hdl import ClockDomain
+            m = inner if sub else top
+            cd = ClockDomain("cd", async_reset=variant != "sync-own")
+            other = ClockDomain("other")
+            top.domains += [cd, other]
+            r = Signal(3, name="r"); o = Signal(3, name="o"); en = Signal(name="en")
+            m.d.cd += r.eq(r + 1)
+            m.d.other += o.eq(o + 1)
+            src = o if variant == "async-other" else r
+            e = [src[0], src.any(), src == 5, en & src[2]][how]
+            top.d.comb += cd.rst.eq(e)
+            ports = [cd.clk, other.clk, other.rst, r, o, en]
+            cyclic = variant == "async-own"
+            key = f"shape:reset-{variant}"
+        try:
+            rtlil.convert(top, ports=ports)
+            got = "accepted"
+        except CombinationalCycle:
+            got = "CombinationalCycle"
+    if cyclic and got != "CombinationalCycle":
+        raise Mismatch("cycle-not-rejected", actual=got, shape=case)
+    if not cyclic and got != "accepted":
+        raise Mismatch("acyclic-design-rejected", actual=got, shape=case)
+    ctx.note_bulk(1, 1, {"shape": case, "outcome": got}, key, "shape:cyclic" if cyclic else "shape:legal")
+
+
 def parts(tier):
     q = tier == "quick"
     return [
         Part("drivers", "hyp", strategy=driver_cases(), body=driver_body, n=700 if q else 6000),
         Part("cycles", "hyp", strategy=cycle_cases(), body=cycle_body, n=800 if q else 8000),
+        Part("shapes", "enum", cases=shape_cases, body=shape_body, exhaustive=True),
     ]
 
 
@@ -581,4 +660,6 @@ REQUIRED = ["drv:legal", "drv:conflicting", "drv:near-miss-still-legal", "drv:in
             "drv:mutation-grow", "drv:mutation-move-module", "drv:mutation-move-domain", "drv:mutation-overlap-inst",
             "drv:mutation-second-inst", "drv:slice-of-sign-reinterpretation", "drv:control-inserter-around-submodule",
             "drv:implicit-domain-with-its-clock-among-the-ports", "cyc:acyclic", "cyc:acyclic-with-intra-signal-feeding", "cyc:cyclic",
-            "cyc:cycle-through>=2-signals", "cyc:with-conditions", "cyc:two-modules"]
+            "cyc:cycle-through>=2-signals", "cyc:with-conditions", "cyc:two-modules",
+            "shape:condition-outermost", "shape:condition-middle", "shape:condition-innermost", "shape:reset-async-own",
+            "shape:reset-sync-own", "shape:reset-async-other", "shape:cyclic", "shape:legal"]
